@@ -217,6 +217,21 @@ def LLC_set_poll_final (m : Mem) (v X : Nat) : Nat := memSet .le 0 m v X
 def LLC_get_super_func (ty : Nat) (m : Mem) (X : Nat) : Nat := if ty = 1 then memGet .le 0 m X else 0
 /-- `if (type() != LLC::SUPERVISORY) return;  control_field.super.supervisory_func = new_func;` -/
 def LLC_set_super_func (ty : Nat) (m : Mem) (v X : Nat) : Nat := if ty ≠ 1 then X else memSet .le 0 m v X
+/-- `if (type() == UNNUMBERED) return (control_field.unnumbered.mod_func1 << 3) + control_field.unnumbered.mod_func2; return 0;` -/
+def LLC_get_modifier (ty : Nat) (m1 m2 : Mem) (X : Nat) : Nat :=
+  if ty = 3 then ((memGet .le 0 m1 X) <<< 3) + memGet .le 0 m2 X else 0
+/-- `if (type() != LLC::UNNUMBERED) return;  mod_func1 = mod_func >> 3;  mod_func2 = mod_func & 0x07;` -/
+def LLC_set_modifier (ty : Nat) (m1 m2 : Mem) (v X : Nat) : Nat :=
+  if ty ≠ 3 then X else memSet .le 0 m2 (v &&& 0x07) (memSet .le 0 m1 (v >>> 3) X)
+/-- the two bit groups seen through the one public pair (harness expressions):
+    `_hi`: `modifier_function() >> 3`, `modifier_function((v << 3) | (modifier_function() & 7))` -/
+def LLC_get_modifier_hi (ty : Nat) (m1 m2 : Mem) (X : Nat) : Nat := (LLC_get_modifier ty m1 m2 X) >>> 3
+def LLC_set_modifier_hi (ty : Nat) (m1 m2 : Mem) (v X : Nat) : Nat :=
+  LLC_set_modifier ty m1 m2 ((v <<< 3) ||| ((LLC_get_modifier ty m1 m2 X) &&& 7)) X
+/-- `_lo`: `modifier_function() & 7`, `modifier_function((modifier_function() & 0x18) | v)` -/
+def LLC_get_modifier_lo (ty : Nat) (m1 m2 : Mem) (X : Nat) : Nat := (LLC_get_modifier ty m1 m2 X) &&& 7
+def LLC_set_modifier_lo (ty : Nat) (m1 m2 : Mem) (v X : Nat) : Nat :=
+  LLC_set_modifier ty m1 m2 (((LLC_get_modifier ty m1 m2 X) &&& 0x18) ||| v) X
 end LLC
 
 section ICMPExtensionsStructure   -- src/icmp_extension.cpp:122-134, include/tins/icmp_extension.h:214-227 ; uint16_t version_and_reserved_
@@ -324,6 +339,10 @@ def table : List CustomAcc := [
   ⟨"LLCSupervisory", "poll_final", 24, 1, 1, LLC_get_poll_final LLCSupervisory_poll_final_bit, LLC_set_poll_final LLCSupervisory_poll_final_bit⟩,
   ⟨"LLCSupervisory", "receive_seq_number", 25, 7, 1, LLC_get_recv_seq 1 LLCSupervisory_recv_seq_num, LLC_set_recv_seq 1 LLCSupervisory_recv_seq_num⟩,
   ⟨"LLCUnnumbered", "poll_final", 20, 1, 1, LLC_get_poll_final LLCUnnumbered_poll_final_bit, LLC_set_poll_final LLCUnnumbered_poll_final_bit⟩,
+  ⟨"LLCUnnumbered", "modifier_function_hi", 18, 2, 1, LLC_get_modifier_hi 3 LLCUnnumbered_mod_func1 LLCUnnumbered_mod_func2,
+                                                       LLC_set_modifier_hi 3 LLCUnnumbered_mod_func1 LLCUnnumbered_mod_func2⟩,
+  ⟨"LLCUnnumbered", "modifier_function_lo", 21, 3, 1, LLC_get_modifier_lo 3 LLCUnnumbered_mod_func1 LLCUnnumbered_mod_func2,
+                                                       LLC_set_modifier_lo 3 LLCUnnumbered_mod_func1 LLCUnnumbered_mod_func2⟩,
   ⟨"ICMPExtensionsStructure", "version", 12, 4, 1, ICMPExt_get_version, ICMPExt_set_version⟩,
   ⟨"ICMPExtensionsStructure", "reserved", 0, 12, 1, ICMPExt_get_reserved, ICMPExt_set_reserved⟩,
   ⟨"BootP", "chaddr_mac", 1536, 128, 1208925819614629174706176, BootP_get_chaddr_mac, BootP_set_chaddr_mac⟩,
